@@ -420,6 +420,59 @@ theorem field_highlights_partial (t : Bytes) (hp : Bool) (find : Nat → Option 
     apply hne
     simp [h0]
 
+
+/-! ## the fragment limit at its boundary value, and the seeded `while` shape (seeded/C21-c)
+
+The model's loop is the code's `for _ in 0..number_of_fragments { if let Some(m) = … else break }`:
+the limit is tested BEFORE a fragment is produced, so `highlightFragments_length` holds for every
+`nfrag`, `0` included.  The seeded variant
+
+    while let Some(m) = re.find_at(text, offset) { …push…; if out.len() >= n { break }; offset = m.end() }
+
+tests the limit only AFTER a push: it agrees with the `for` shape for every `n ≥ 1` and returns
+one fragment for `n = 0`. -/
+
+/-- no fragment at all is returned for `number_of_fragments = 0` -/
+theorem zero_fragments (slice : Bytes → Nat → Nat → Bytes) (t : Bytes) (hp : Bool)
+    (find : Nat → Option Span) (rematch : Bytes → List Span) (size : Nat) :
+    highlightFragments slice t hp find rematch size 0 = [] ∧
+    fieldHighlights slice t hp find rematch size 0 = none := by
+  have h := highlightFragments_length slice t hp find rematch size 0
+  have h0 : highlightFragments slice t hp find rematch size 0 = [] :=
+    List.eq_nil_of_length_eq_zero (Nat.le_zero.mp h)
+  exact ⟨h0, by simp [fieldHighlights, h0]⟩
+
+/-- the seeded `while` shape; `fuel` bounds the number of matches (any value ≥ the text length
+does), `cnt` = `out.len()` before this iteration -/
+def fragsWhile (slice : Bytes → Nat → Nat → Bytes) (t : Bytes) (find : Nat → Option Span)
+    (rematch : Bytes → List Span) (size n : Nat) : Nat → Nat → Nat → List (List Piece)
+  | 0, _, _ => []
+  | fuel + 1, off, cnt =>
+    match find off with
+    | none => []
+    | some m =>
+      let f := slice t m.1 size
+      tagPieces f (rematch f) ::
+        (if n ≤ cnt + 1 then [] else fragsWhile slice t find rematch size n fuel m.2 (cnt + 1))
+
+/-- negative witness for the seeded shape: text `"a b c"`, query `b`, `number_of_fragments = 0`:
+the `while` shape returns ONE fragment, the model (the code's `for` shape) none; for
+`number_of_fragments = 1, 2` the two shapes agree. -/
+theorem while_shape_breaks_zero :
+    (fragsWhile sliceSnap [0x61, 0x20, 0x62, 0x20, 0x63]
+        (fun off => if off ≤ 2 then some (2, 3) else none)
+        (fun f => if f = [0x20, 0x62] then [(1, 2)] else []) 2 0 5 0 0).length = 1 ∧
+    (highlightFragments sliceSnap [0x61, 0x20, 0x62, 0x20, 0x63] true
+        (fun off => if off ≤ 2 then some (2, 3) else none)
+        (fun f => if f = [0x20, 0x62] then [(1, 2)] else []) 2 0).length = 0 ∧
+    (∀ n ∈ [1, 2], fragsWhile sliceSnap [0x61, 0x20, 0x62, 0x20, 0x63]
+        (fun off => if off ≤ 2 then some (2, 3) else none)
+        (fun f => if f = [0x20, 0x62] then [(1, 2)] else []) 2 n 5 0 0 =
+      highlightFragments sliceSnap [0x61, 0x20, 0x62, 0x20, 0x63] true
+        (fun off => if off ≤ 2 then some (2, 3) else none)
+        (fun f => if f = [0x20, 0x62] then [(1, 2)] else []) 2 n) := by
+  decide
+
 /-! ## non-vacuity: the hypotheses are satisfiable and the conclusion is about a real fragment -/
 
 def exText : Bytes := [0x61, 0x20, 0x62, 0x20, 0x63]      -- "a b c"
